@@ -14,4 +14,4 @@ Definition ptr_branch : pbranch :=
 
 (* cdata_hash: the arms tried, in source order, before `return _Py_HashPointer(c_data)` *)
 Definition hash_prog : list harm :=
-  [ HNonnegSelf; HConvert ].
+  [ HConvert ].
